@@ -51,6 +51,11 @@ def gen_cases():
         lines.append("end")
         cases.append(lines)
         i += 1
+    # a wake-up that ends the wait before the earliest timer is due: the timer must not fire yet
+    for timeout, timers in itertools.product(["600", "none"], [["400"], ["300", "500"]]):
+        lines = ["case t%d" % i, "timeout " + timeout] + ["timer " + t for t in timers] + ["waker 50", "end"]
+        cases.append(lines)
+        i += 1
     # a timer registered while its deadline is unrepresentable (nothing armed) and given a real deadline later
     # (set_deadline + update): armed from then on — unless it was disabled in between, then nothing is armed
     for timeout, timers in itertools.product(["120", "none"],
@@ -93,13 +98,21 @@ def judge(case, trace):
         if eff is None:
             if waker is not None and not ((waker - 2) * MS <= el <= (waker + 250) * MS):
                 soft.append("dispatch %d: unlimited wait ended after %d ns, the wake-up came at %d ms" % (idx, el, waker))
+        elif waker is not None and waker * MS < eff:
+            # the wake-up comes before the limit: it ends the wait
+            if not ((waker - 2) * MS <= el <= (waker + 250) * MS):
+                soft.append("dispatch %d: a wake-up at %d ms into a wait limited to %d ns ended it after %d ns" % (idx, waker, eff, el))
         else:
             if el < eff - 1 * MS:
                 soft.append("dispatch %d: returned after %d ns although it should wait %d ns (spinning)" % (idx, el, eff))
             if el > eff + 250 * MS and idx >= 1:
                 soft.append("dispatch %d: waited %d ns for a limit of %d ns (oversleeping)" % (idx, el, eff))
+        # never early: a timer that fired in this dispatch was due by the time the dispatch returned
+        if d["fired"] and due is not None and el < due - 1 * MS:
+            hard.append("dispatch %d: a timer fired although the earliest armed deadline was still %d ns away when the dispatch began and it returned after %d ns" % (idx, due, el))
         # the second dispatch is quiescent (closed peers were consumed by the first): the limit, if it is a timer, fires
-        if idx >= 1 and eff is not None and due is not None and user is not None and due <= user and d["fired"] == 0 and due > 0:
+        if idx >= 1 and eff is not None and due is not None and user is not None and due <= user and d["fired"] == 0 and due > 0 \
+                and not (waker is not None and waker * MS < eff):
             soft.append("dispatch %d: the earliest timer was the limit of the wait but did not fire" % idx)
     return hard, soft
 
